@@ -45,7 +45,9 @@ func (n NameTrie) Collect(typeExpr ast.BaseTerm) {
 	walk := func(typeExpr ast.BaseTerm) {
 		switch x := typeExpr.(type) {
 		case ast.Constant:
-			if IsBaseTypeExpression(x) {
+			if IsBaseTypeExpression(x) || x.Equals(ast.TimeBound) || x.Equals(ast.DurationBound) {
+				// /time and /duration are types of time and duration constants, not name prefixes:
+				// the name /time/x is not a member of /time.
 				return
 			}
 			if x.Type == ast.NameType {
